@@ -204,11 +204,12 @@ void AutomationMgr::clearSlot(int slot_id)
     auto &s = slots[slot_id];
     s.active = false;
     s.used   = false;
-    if(s.learning)
+    if(s.learning > 0) {
         learn_queue_len--;
-    for(int i=0; i<nslots; ++i)
-        if(slots[i].learning > s.learning)
-            slots[i].learning--;
+        for(int i=0; i<nslots; ++i)
+            if(slots[i].learning > s.learning)
+                slots[i].learning--;
+    }
     s.learning = -1;
     s.midi_cc  = -1;
     s.midi_nrpn  = -1;
